@@ -333,54 +333,25 @@ func runC18(c *Ctx) {
 	{
 		g := NewGate(c.P)
 		g.Inline = inlineOnly()
+		g.Search = true
 		s := g.Eval(hm)
 		u := g.U
 		ps := g.ParamExprs(hm)
 		names := u.Field(ps[0], "Hostnames", nil)
-		loops := loopsOf(hm)
 		bad := ""
-		// every "return true" is under equality of the query with some name
-		for _, r := range s.Rets {
-			v := r.Vals[0]
-			if v.Op != "bool" || (v.B != True && v.B != False) {
-				bad = "UNDECIDED: non-constant result"
-				continue
+		// canonical search form: the result is exists(names, name == query)
+		res := g.RetExpr(s, 0)
+		if !isBoolE(res) {
+			bad = "UNDECIDED: non-boolean result"
+		} else {
+			ex := u.mk("exists", "", types.Typ[types.Bool], names, u.Eq(u.BVar(0, types.Typ[types.String]), ps[1]))
+			extra, missed := sameAsExists(u, u.ToBool(res), ex)
+			switch {
+			case extra:
+				bad = "Match can return true without the query being equal to one of the rule's names"
+			case missed:
+				bad = "no complete scan of the names returning true on an equal name (a listed name can be missed)"
 			}
-			if v.B == True {
-				ok := false
-				for _, at := range u.AtomsOf(r.Cond) {
-					if at.Op == "eq" && u.bdd.Implies(r.Cond, u.Atom(at)) {
-						x, y := at.Args[0], at.Args[1]
-						if (x == ps[1] && y.Op == "index" && y.Args[0].key == names.key) || (y == ps[1] && x.Op == "index" && x.Args[0].key == names.key) {
-							ok = true
-						}
-					}
-				}
-				if !ok {
-					bad = "Match can return true without the query being equal to one of the rule's names"
-				}
-			}
-		}
-		// completeness: a full-range loop over the names returns true on equality
-		okLoop := false
-		for _, l := range loops {
-			ro := rangedOver(l)
-			if ro == nil || !ro.Full || s.Env[ro.Coll] == nil || s.Env[ro.Coll].key != names.key {
-				continue
-			}
-			body := u.bdd.And(s.RC[l.Header], contCond(u, s, l))
-			for _, r := range s.Rets {
-				if r.Vals[0].Op == "bool" && r.Vals[0].B == True && u.bdd.Implies(r.Cond, body) {
-					for _, at := range u.AtomsOf(r.Cond) {
-						if at.Op == "eq" && r.Cond == u.bdd.And(body, u.Atom(at)) {
-							okLoop = true
-						}
-					}
-				}
-			}
-		}
-		if !okLoop && bad == "" {
-			bad = "no complete scan of the names returning true on the first equal name (a listed name can be missed)"
 		}
 		c.Check(bad == "", "C18.R5", "HostRule.Match: true iff some name equals the query", hm.Pos(), "true only under name == query; complete scan returns true on equality", bad)
 	}
